@@ -147,6 +147,10 @@ def run(ctx):
     cases = families.elementwise_cases(rnd, n, prefix="E") + extra
     for c in cases:
         c["lazy_subsets"] = c["lazy_subsets"][:1] if rnd.random() < 0.3 else []
+    # constant one-element operands against operands of any rank (data-holding and placeholder): folding shortcuts
+    cases += families.constant_operand_cases(rnd, 150 if ctx.tier == "quick" else 1500, prefix="K")
+    if changed:
+        cases += families.constant_operand_cases(rnd, 300, prefix="HK", funcs=sorted({s[0] for s in changed}))
     family.evaluate(ctx, cases, want=("oracle", "traced"))
     ctx.sample({"case": cases[0]["impl"], "inputs": {k: v["shape"] for k, v in cases[0]["inputs"].items()}, "dtype": cases[0]["meta"]["dtype"]})
     ctx.coverage.update({
